@@ -100,6 +100,38 @@ def run_one(path, keep=False):
     return res
 
 
+_MODS = {}
+
+
+def benign_is_relevant(path, pid):
+    """does the patch touch a source file of a module in which the property's check analysed a function (last evidence file)?"""
+    if pid not in _MODS:
+        mods = None
+        try:
+            ev = json.load(open(os.path.join(os.environ.get("VERIF_EVIDENCE_DIR") or os.path.join(HERE, "evidence"), pid + ".json")))
+            mods = set()
+            for f in ev["coverage"].get("functions_analysed") or []:
+                for m in re.findall(r"crate((?:::[a-z_][a-z0-9_]*)+)::", f):
+                    mods.add(m)
+        except Exception:
+            mods = None
+        _MODS[pid] = mods
+    mods = _MODS[pid]
+    if not mods:
+        return True
+    if re.search(r"zz_benign_agent2?_%s_" % pid, os.path.basename(path)):
+        return True
+    for l in open(path):
+        m = re.match(r"\+\+\+ b/src/(.*)\.rs", l)
+        if m:
+            mod = "::" + m.group(1).replace("/", "::")
+            mod = re.sub(r"::mod$", "", mod)
+            mod = re.sub(r"^::lib$", "", mod)
+            if any(x == mod or x.startswith(mod + "::") or mod.startswith(x + "::") for x in mods):
+                return True
+    return False
+
+
 def main():
     ap = argparse.ArgumentParser()
     ap.add_argument("--jobs", type=int, default=6)
@@ -107,6 +139,9 @@ def main():
     ap.add_argument("--prop")
     ap.add_argument("--as-prop", help="run only this property's check; selects its mutants and every benign refactoring")
     ap.add_argument("--json", help="write the result table here")
+    ap.add_argument("--relevant-benign", action="store_true",
+                    help="with --as-prop: of the benign refactorings, only those that touch a module the property's check analyses "
+                         "(read from its last evidence file; all of them if there is none)")
     a = ap.parse_args()
     global AS_PROP
     d = os.path.join(HERE, "mutants")
@@ -120,14 +155,29 @@ def main():
     if a.as_prop:
         AS_PROP = a.as_prop
         paths = [p for p in paths if a.as_prop in parse(p).get("property", "").split(",") or parse(p).get("property") == "ALL"]
+        if a.relevant_benign:
+            paths = [p for p in paths if parse(p).get("property") != "ALL" or benign_is_relevant(p, a.as_prop)]
     results = []
-    with concurrent.futures.ThreadPoolExecutor(max_workers=a.jobs) as ex:
-        for r in ex.map(run_one, paths):
-            results.append(r)
-            print("%-44s %-6s %-10s %-22s %5.1fs" % (r["mutant"], r["property"], r.get("rule") or "-", r["status"], r["wall_s"]))
-            if r["status"] in ("MISSED", "FALSE-ALARM"):
-                print("     " + (r.get("detail") or "").replace("\n", "\n     ")[-500:])
-            sys.stdout.flush()
+
+    def report(r):
+        results.append(r)
+        print("%-44s %-6s %-10s %-22s %5.1fs" % (r["mutant"], r["property"], r.get("rule") or "-", r["status"], r["wall_s"]))
+        if r["status"] in ("MISSED", "FALSE-ALARM"):
+            print("     " + (r.get("detail") or "").replace("\n", "\n     ")[-500:])
+        sys.stdout.flush()
+    # the scratch copies share their dependencies: the first export leaves a target directory without the crate's own artefacts in a
+    # scratch place (harness.export_facts, VERIF_DEPS_TEMPLATE), the others start from a copy of it and compile only the crate
+    import shutil
+    deps = tempfile.mkdtemp(prefix="discv5-deps-")
+    os.environ["VERIF_DEPS_TEMPLATE"] = deps
+    try:
+        if paths:
+            report(run_one(paths[0]))
+        with concurrent.futures.ThreadPoolExecutor(max_workers=a.jobs) as ex:
+            for r in ex.map(run_one, paths[1:]):
+                report(r)
+    finally:
+        shutil.rmtree(deps, ignore_errors=True)
     os.makedirs(os.path.join(HERE, "out"), exist_ok=True)
     if not a.only and not a.prop and not a.as_prop:
         json.dump(results, open(os.path.join(HERE, "out", "mutants.json"), "w"), indent=1)
